@@ -116,6 +116,9 @@ def parse_output(text, byid):
     return blocks
 
 
+FINDERS = {}          # one finder per graph (a finder keeps the first graph it was given)
+
+
 def replay(q):
     qd = q_dict(q)            # one parameter dictionary used for the searches on both graphs, as a caller would
     for wi, (st, g, byid) in enumerate(worlds()):
@@ -128,7 +131,8 @@ def replay(q):
                 rec["pairs"] = []
                 rec["attrs"], rec["terms"] = q["attrs"], q["terms"]
             try:
-                ff = FuzzyFinder()
+                # the dictionary searches on one graph share one finder object (a caller keeps its finder), the string ones get a new one
+                ff = FINDERS.setdefault(wi, FuzzyFinder()) if way == "dict" else FuzzyFinder()
                 if way.startswith("string"):
                     text = ff.find(mode=q["mode"], graph=g, q_str=q_string(q, rev=(way == "string-rev")))
                 else:
